@@ -208,6 +208,7 @@ class VectorOps(Unit):
     prop = 'C20'
     name = 'C20.vector.ops'
     int_mode = 'int'
+    nonlinear_ok = True       # a // d with a symbolic positive divisor appears identically in code and spec
     functions = tuple('minecraft.networking.types.utility.Vector.' + m for m in
                       ('__add__', '__sub__', '__neg__', '__mul__', '__rmul__', '__truediv__', '__floordiv__'))
 
@@ -268,34 +269,23 @@ class Aliases(Unit):
     functions = ('minecraft.utility.attribute_alias', 'minecraft.utility.multi_attribute_alias',
                  'minecraft.utility.attribute_transform', 'minecraft.utility.partial_attribute_alias')
 
-    CASES = [
-        (PositionAndLook, 'position', Vector, ('x', 'y', 'z')),
-        (PositionAndLook, 'look', Direction, ('yaw', 'pitch')),
-        (SpawnPlayerPacket, 'position', Vector, ('x', 'y', 'z')),
-        (SpawnPlayerPacket, 'position_and_look', PositionAndLook, ('x', 'y', 'z', 'yaw', 'pitch')),
-        (PositionAndLookPacket, 'position', Vector, ('x', 'feet_y', 'z')),
-        (PlayerPositionAndLookPacket, 'look', Direction, ('yaw', 'pitch')),
-        (MultiBlockChangePacket, 'chunk_pos', tuple, ('chunk_x', 'chunk_z')),
-        (ExplosionPacket, 'player_motion', Vector, ('player_motion_x', 'player_motion_y', 'player_motion_z')),
-        (clientbound.play.SpawnObjectPacket, 'position_and_look', 'kw:PositionAndLook', ('x', 'y', 'z', 'yaw', 'pitch')),
-        (clientbound.play.SpawnObjectPacket, 'velocity', Vector, ('velocity_x', 'velocity_y', 'velocity_z')),
-    ]
+    CASES = []      # filled by discover_aliases(): every multi_attribute_alias / attribute_alias of the library
 
     def run(self, I):
         E = I.E
         k = E.fork(len(self.CASES) + 3, 'alias')
         if k < len(self.CASES):
-            cls, alias, cont, attrs = self.CASES[k]
+            cls, alias, cont, attrs, decl = self.CASES[k]
             obj = cls.__new__(cls)
             if hasattr(obj, '__dict__'):
                 obj.__dict__['context'] = None
             vals = [E.new_int('v%d' % j) for j in range(len(attrs))]
-            if cont is tuple:
-                value = tuple(vals)
-            elif cont == 'kw:PositionAndLook':
-                value = PositionAndLook(**dict(zip(attrs, vals)))
-            else:
-                value = cont(*vals) if cont is not PositionAndLook else PositionAndLook(**dict(zip(attrs, vals)))
+            try:
+                value = alias_value(decl[0], decl[1], decl[2], vals)
+            except TypeError as e:
+                E.check('alias.readback[%s.%s]' % (cls.__name__, alias), False,
+                        note='the declared container cannot be built from the declared names: %r' % (e,))
+                return None
             try:
                 I.setattr_(obj, alias, value)
                 comps = [I.getattr_(obj, a) for a in attrs]
@@ -305,8 +295,7 @@ class Aliases(Unit):
                 return None
             E.check('alias.components[%s.%s]' % (cls.__name__, alias), all(c is v for c, v in zip(comps, vals)),
                     note='the underlying attributes hold the components')
-            E.check('alias.readback[%s.%s]' % (cls.__name__, alias), I.equals(back, value) and
-                    type(back) is (tuple if cont is tuple else type(value)))
+            E.check('alias.readback[%s.%s]' % (cls.__name__, alias), I.equals(back, value) and type(back) is type(value))
             return None
         k -= len(self.CASES)
         if k == 0:
@@ -348,16 +337,16 @@ class Aliases(Unit):
 
 def replay_aliases():
     n = 0
-    for cls, alias, cont, attrs in Aliases.CASES:
+    for cls, alias, cont, attrs, decl in Aliases.CASES:
         n += 1
-        obj = cls()
+        obj = cls.__new__(cls)
         vals = [float(j + 1) for j in range(len(attrs))]
-        value = tuple(vals) if cont is tuple else (PositionAndLook(**dict(zip(attrs, vals)))
-                                                   if cont in (PositionAndLook, 'kw:PositionAndLook') else cont(*vals))
-        if cont == 'kw:PositionAndLook':
-            value = PositionAndLook(x=1.0, y=2.0, z=3.0, yaw=4.0, pitch=5.0)
-        setattr(obj, alias, value)
-        back = getattr(obj, alias)
+        try:
+            value = alias_value(decl[0], decl[1], decl[2], vals)
+            setattr(obj, alias, value)
+            back = getattr(obj, alias)
+        except Exception as e:
+            return dict(confirmed=True, n=n, call='%s.%s set/get' % (cls.__name__, alias), observed='raised %r' % (e,))
         if [getattr(obj, a) for a in attrs] != vals or back != value:
             return dict(confirmed=True, n=n, call='%s.%s = %r' % (cls.__name__, alias, value), observed='reads back %r' % (back,))
     p = EntityPositionDeltaPacket()
@@ -373,6 +362,50 @@ def replay_aliases():
         if c.disable_text_filtering is not v or c.enable_text_filtering is v:
             return dict(confirmed=True, n=n, call='disable_text_filtering = %r' % v, observed='reads back %r' % c.disable_text_filtering)
     return dict(confirmed=False, n=n, call='aliases', observed='conform')
+
+
+def _closure(fn):
+    return dict(zip(fn.__code__.co_freevars, [c.cell_contents for c in (fn.__closure__ or ())]))
+
+
+def discover_aliases():
+    """Every class attribute of the library built by multi_attribute_alias (found through the closure of its getter)."""
+    import inspect
+    import minecraft.networking.packets.clientbound.play as cbp
+    import minecraft.networking.packets.serverbound.play as sbp
+    import minecraft.networking.packets.clientbound.login as cbl
+    import minecraft.networking.packets.serverbound.login as sbl
+    classes = []
+    for mod in (cbp, sbp, cbl, sbl, U):
+        for _n, c in inspect.getmembers(mod, inspect.isclass):
+            classes.append(c)
+            for _m, inner in inspect.getmembers(c, inspect.isclass):
+                if inner.__qualname__.startswith(c.__qualname__ + '.'):
+                    classes.append(inner)
+    out, seen = [], set()
+    for c in classes:
+        for name, attr in list(vars(c).items()):
+            if isinstance(attr, property) and attr.fget is not None and \
+                    'multi_attribute_alias' in getattr(attr.fget, '__qualname__', ''):
+                cl = _closure(attr.fget)
+                key = (c, name)
+                if key in seen:
+                    continue
+                seen.add(key)
+                out.append((c, name, cl.get('container'), tuple(cl.get('arg_names', ())), dict(cl.get('kwd_names', {}))))
+    return out
+
+
+def alias_value(cont, arg_names, kwd_names, vals):
+    """A container value whose components are vals (positional first, then keywords in declaration order)."""
+    pos = vals[:len(arg_names)]
+    kw = dict(zip(kwd_names, vals[len(arg_names):]))
+    if getattr(cont, '__name__', '') == '<lambda>':       # the tuple special case
+        return tuple(pos)
+    return cont(*pos, **kw)
+
+
+Aliases.CASES = [(c, name, cont, args + tuple(kw.values()), (cont, args, kw)) for c, name, cont, args, kw in discover_aliases()]
 
 
 # ------------------------------------------------------------------------------------------
